@@ -1,6 +1,7 @@
 import QclibModel.Model.DriverLib
 import QclibModel.Model.FloatOps
 import QclibModel.Model.Widths
+import QclibModel.Gen.Widths
 import QclibModel.Spec.Placement
 open Lean Qclib Qclib.Drv Qclib.Widths
 
@@ -52,6 +53,23 @@ def runOp (j : Json) : List String :=
        match circuitWidth c p with
        | some w => s!"circ {w}"
        | none => "circ reject"]
+  | "gen_width" =>
+    -- double tie of the translation: width expressions generated from the current constructors
+    let n : Int := Int.ofNat (jNat j "n")
+    let m : Int := Int.ofNat (jNat j "m")
+    let k : Int := Int.ofNat (jNat j "k")
+    let t : Int := Int.ofNat (jNat j "t")
+    let optNone := jBool j "opt_none"
+    let o : Option Bool := if jBool j "has_opt" then some (jBool j "opt") else none
+    let w : Int := match jStr j "cls" with
+      | "cvoqram" => Qclib.Gen.Widths.cvoqram_width n optNone o
+      | "fnPoints" => Qclib.Gen.Widths.fnpoints_width n
+      | "pivot" => Qclib.Gen.Widths.pivot_width n m optNone o
+      | "mcxVchainDirty" => Qclib.Gen.Widths.mcx_vchain_dirty_width k t
+      | "linearMcx" => Qclib.Gen.Widths.linear_mcx_width k
+      | "multiTargetMCSU2" => Qclib.Gen.Widths.multi_target_mcsu2_width k t
+      | _ => -1
+    [s!"decl {w}"]
   | "inv" =>
     match parseCirc j with
     | some c => circLines (Circ.inv c)
